@@ -37,7 +37,8 @@ func sameState(a, b *reqRec) bool {
 }
 
 // firstMatch computes, from pending bytecode that starts with INCMP lines, which INCMP decides the move.
-func firstMatch(code []byte, input []byte) (target string, matched bool, ok bool) {
+// ended: the code ends with the INCMP block; nmatch: how many INCMP lines of the block match the input.
+func firstMatch(code []byte, input []byte) (target string, matched bool, ok bool, ended bool, nmatch int) {
 	b := code
 	n := 0
 	for len(b) >= 2 {
@@ -47,18 +48,21 @@ func firstMatch(code []byte, input []byte) (target string, matched bool, ok bool
 		}
 		t, sel, rest2, err := vm.ParseInCmp(rest)
 		if err != nil {
-			return "", false, false
+			return "", false, false, false, 0
 		}
 		n++
-		if sel == "*" || sel == string(input) {
-			return t, true, true
+		if (sel == "*" && nmatch == 0) || sel == string(input) {
+			if !matched {
+				target, matched = t, true
+			}
+			nmatch++
 		}
 		b = rest2
 	}
 	if n == 0 {
-		return "", false, false
+		return "", false, false, false, 0
 	}
-	return "", false, true
+	return target, matched, true, len(b) == 0, nmatch
 }
 
 func simpleNode(code []byte) bool {
@@ -69,8 +73,9 @@ func simpleNode(code []byte) bool {
 		if err != nil || p != nil {
 			return false
 		}
-		if strings.HasPrefix(s, "MOVE") || strings.HasPrefix(s, "CATCH") || strings.HasPrefix(s, "CROAK") {
-			return false
+		if strings.HasPrefix(s, "MOVE") || strings.HasPrefix(s, "CATCH") || strings.HasPrefix(s, "CROAK") ||
+			strings.HasPrefix(s, "LOAD") || strings.HasPrefix(s, "RELOAD") || strings.HasPrefix(s, "MAP") || s == "MSINK" {
+			return false // navigation, or an external call / mapping that may fail over to the catch node
 		}
 		if s == "HALT" {
 			return true
@@ -84,12 +89,19 @@ func engineOracles(c *Ctx, ec *eCase, recs []reqRec) {
 	pers := ec.mode != "long"
 	hasFirst := len(ec.firsts) > 0
 	var prev *reqRec
+	dupSeen := false
+	okSeen := false
 	for i := range recs {
 		r := &recs[i]
 		if r.x == "stopped" {
 			break
 		}
 		in := ec.inputs[i]
+		if prev != nil {
+			if _, _, _, _, nm := firstMatch(prev.code, in); nm > 1 {
+				dupSeen = true
+			}
+		}
 		where := fmt.Sprintf("request %d (input %q, mode %s)", i, trunc(string(in), 40), ec.mode)
 		// ---- C01: delivered output fits
 		if r.f == "ok" && ec.out > 0 && len(r.out) > ec.out {
@@ -98,10 +110,34 @@ func engineOracles(c *Ctx, ec *eCase, recs []reqRec) {
 		// ---- C08: no panic, session consistent (well-formed applications only)
 		if ec.wf {
 			if r.x == "panic" || r.f == "panic" || r.fin == "panic" {
-				c.Fail("C08", "panic", fmt.Sprintf("%s: panic: %v", where, r.panicV))
+				cls := "panic"
+				msg := fmt.Sprint(r.panicV)
+				failedBefore := false
+				for j := 0; j < i; j++ {
+					if recs[j].x == "err" && !refusedInput(ec.inputs[j]) {
+						failedBefore = true
+					}
+					if recs[j].x == "ok" && recs[j].f == "err" {
+						failedBefore = true
+					}
+				}
+				// a duplicate selector anywhere earlier in the history leaves stale INCMP lines in the
+				// pending bytecode (two moves in one request), so it taints the rest of the session
+				dupSel := dupSeen
+				switch {
+				case strings.Contains(msg, "down into same node") && dupSel:
+					cls = "panic-duplicate-selector"
+				case strings.Contains(msg, "down into same node") && failedBefore:
+					cls = "panic-after-failed-request"
+				case msg == "maxlevel":
+					cls = "panic-maxlevel"
+				case strings.Contains(msg, "slice bounds out of range") && r.f == "panic":
+					cls = "panic-render-cursor"
+				}
+				c.Fail("C08", cls, fmt.Sprintf("%s: panic: %v", where, r.panicV))
 			} else if r.state != "nostate" {
 				if len(r.caSnap.frames) != len(r.path)+1 {
-					c.Fail("C08", "scope-count", fmt.Sprintf("%s: %d cache scopes for navigation depth %d (path %v)", where, len(r.caSnap.frames), len(r.path), r.path))
+					c.Fail("C08", scopeClass(ec), fmt.Sprintf("%s: %d cache scopes for navigation depth %d (path %v)", where, len(r.caSnap.frames), len(r.path), r.path))
 				}
 				if uint64(r.caSnap.use) != r.caSnap.sum() {
 					c.Fail("C08", "use-ne-sum", fmt.Sprintf("%s: CacheUseSize=%d, contents %d", where, r.caSnap.use, r.caSnap.sum()))
@@ -128,12 +164,14 @@ func engineOracles(c *Ctx, ec *eCase, recs []reqRec) {
 			if len(r.calls) > 0 {
 				c.Fail("C17", "refused-ran-code", fmt.Sprintf("%s: %d external calls on a refused input", where, len(r.calls)))
 			}
-			if prev != nil && !sameState(prev, r) && prev.x != "panic" {
+			// (not checked before the engine's first successful request: `prepare` then applies the configured
+			// language; nor right after a failed Flush, whose pending unwind any next Exec performs)
+			if prev != nil && prev.state != "nostate" && okSeen && prev.f != "err" && !sameState(prev, r) && prev.x != "panic" {
 				c.Fail("C17", "refused-changed-state", fmt.Sprintf("%s: state changed: %s -> %s", where, trunc(prev.state, 200), trunc(r.state, 200)))
 			}
 		}
 		// ---- C06 / C20: while TERMINATE is set nothing runs
-		if prev != nil && pers && !hasFirst && flagBit(prev.flags, 6) {
+		if prev != nil && pers && !hasFirst && flagBit(prev.flags, 6) && !refusedInput(in) && !(ec.roe && len(in) == 0) {
 			if len(r.calls) > 0 || len(r.out) > 0 || r.cont || strings.Join(prev.path, "/") != strings.Join(r.path, "/") || prev.idx != r.idx {
 				c.Fail("C06", "terminate-not-blocking", fmt.Sprintf("%s: TERMINATE was set but calls=%d out=%q cont=%v path %v->%v", where, len(r.calls), trunc(string(r.out), 40), r.cont, prev.path, r.path))
 				c.Fail("C20", "terminate-not-blocking", fmt.Sprintf("%s: TERMINATE was set but calls=%d out=%q cont=%v path %v->%v", where, len(r.calls), trunc(string(r.out), 40), r.cont, prev.path, r.path))
@@ -181,24 +219,26 @@ func engineOracles(c *Ctx, ec *eCase, recs []reqRec) {
 			}
 			if i+1 < len(recs) && recs[i+1].x == "ok" && !refusedInput(ec.inputs[i+1]) && ec.wf {
 				nx := recs[i+1]
-				if len(nx.path) == 0 || nx.path[0] != ec.root {
+				if nx.cont && (len(nx.path) == 0 || nx.path[0] != ec.root) {
 					c.Fail("C20", "restart-not-at-entry", fmt.Sprintf("%s: next request did not restart at the entry node: path %v", where, nx.path))
 				}
 			}
 		}
 		// ---- C03 / C04: routing by the first matching INCMP (simple targets only)
 		if prev != nil && prev.x == "ok" && r.x == "ok" && !refusedInput(in) && !hasFirst && !ec.roe && prev.cont && len(prev.code) > 0 {
-			t, matched, ok := firstMatch(prev.code, in)
-			if ok {
-				if !matched {
+			t, matched, ok, ended, nmatch := firstMatch(prev.code, in)
+			if ok && (nmatch <= 1 || !matched) {
+				if !matched && !ended {
+					// code continues after the INCMP block: fallthrough executes it, no catch expected
+				} else if !matched {
 					if len(r.path) == 0 || r.path[len(r.path)-1] != "_catch" {
 						if _, have := ec.nodes["_catch"]; have && !flagBit(prev.flags, 6) {
 							c.Fail("C03", "nomatch-not-catch", fmt.Sprintf("%s: no INCMP matches but the session is at %v", where, r.path))
 						}
-					} else if r.f == "ok" && !strings.HasPrefix(string(r.out), "invalid input: '"+string(in)+"'") {
+					} else if r.f == "ok" && !flagBit(prev.flags, 6) && !strings.HasPrefix(string(r.out), "invalid input: '"+string(in)+"'") {
 						c.Fail("C03", "nomatch-no-message", fmt.Sprintf("%s: no INCMP matches but the page does not start with the invalid-input message: %q", where, trunc(string(r.out), 60)))
 					}
-				} else if code, have := ec.nodes[t]; have && simpleNode(code) && !flagBit(prev.flags, 6) {
+				} else if code, have := ec.nodes[t]; have && simpleNode(code) && !flagBit(prev.flags, 6) && r.cont {
 					exp := append(append([]string{}, prev.path...), t)
 					if strings.Join(exp, "/") != strings.Join(r.path, "/") || r.idx != 0 {
 						c.Fail("C03", "first-match", fmt.Sprintf("%s: first matching INCMP targets %q from %v, session is at %v idx %d", where, t, prev.path, r.path, r.idx))
@@ -234,10 +274,14 @@ func engineOracles(c *Ctx, ec *eCase, recs []reqRec) {
 				}
 			}
 		}
+		if r.x == "ok" {
+			okSeen = true
+		}
 		prev = r
 	}
 	// ---- C07: the other mode gives the same outputs, cont and errors up to the end of the session
-	if ec.mode == "long" {
+	if ec.mode == "long" && !hasFirst {
+		// (with a `first` function the two modes differ by design: it runs once per engine object)
 		other := ec.run("pers")
 		for i := range recs {
 			a, b := recs[i], other[i]
@@ -245,7 +289,13 @@ func engineOracles(c *Ctx, ec *eCase, recs []reqRec) {
 				break
 			}
 			if a.x != b.x || a.cont != b.cont || a.f != b.f || !bytes.Equal(a.out, b.out) {
-				c.Fail("C07", "mode-divergence", fmt.Sprintf("request %d (input %q): long-lived x=%s c=%v f=%s out=%q, persisted x=%s c=%v f=%s out=%q", i, trunc(string(ec.inputs[i]), 30),
+				cls := "mode-divergence"
+				for j := 0; j < i; j++ {
+					if (recs[j].x == "err" && !refusedInput(ec.inputs[j])) || (recs[j].x == "ok" && recs[j].f == "err") {
+						cls = "divergence-after-failed-request"
+					}
+				}
+				c.Fail("C07", cls, fmt.Sprintf("request %d (input %q): long-lived x=%s c=%v f=%s out=%q, persisted x=%s c=%v f=%s out=%q", i, trunc(string(ec.inputs[i]), 30),
 					a.x, a.cont, a.f, trunc(string(a.out), 80), b.x, b.cont, b.f, trunc(string(b.out), 80)))
 				break
 			}
@@ -289,4 +339,23 @@ func engineOracles(c *Ctx, ec *eCase, recs []reqRec) {
 		}
 		c.Count("c17-erasure-compared")
 	}
+}
+
+// scopeClass: applications containing CROAK are known to lose the scope/level lockstep (CROAK resets
+// the cache to one scope while the navigation stack keeps its depth).
+func scopeClass(ec *eCase) string {
+	for _, code := range ec.nodes {
+		b := code
+		for len(b) >= 2 {
+			s, rest, err, p := decodeStep(b)
+			if err != nil || p != nil {
+				break
+			}
+			if strings.HasPrefix(s, "CROAK") {
+				return "scope-count-after-croak"
+			}
+			b = rest
+		}
+	}
+	return "scope-count"
 }
